@@ -1,0 +1,14 @@
+//go:build verif
+
+// Round 7: LogFatal (possible since the engine has the `noreturn` clause: a function that ends in os.Exit carries the obligation "no return
+// instruction is reachable" instead of the return-reachability guard; its calls are covered instead). Comment-only file.
+
+package lg
+
+// LogFatal: never returns - callers may rely on it: nothing after the call runs ("a failed start-up is fatal" at the callers of the three
+// logFatal wrappers). Its Logf call is checked against Logf's contract (a logger is given; FATAL is never filtered).
+//@ func LogFatal(prefix string, f string, args ...interface{})
+//@   props C15 C10 C14 C17
+//@   noreturn
+//@   modifies
+//@   nochan
